@@ -1,5 +1,199 @@
+import Agd.Model.Config
 import Agd.Driver.Util
-/-! Line-protocol driver for the C20 model (stub: not built yet). -/
+/-!
+Line-protocol driver for the C20 model.
+
+* `cfg tok…` — start from the distributed example and apply the tokens: `path=value` sets a
+  scalar (`-` = key absent, i.e. the Go zero value), `-path` removes a section.  Answer: `ok`,
+  `parse` (a value does not fit its Go type) or `err path:kind[;path:kind…]`.
+* `conv` — what the `toInternal` conversions produce for the last configuration.
+* `build` — the start-up constructors: `ok` or `panic …`.
+* `handle is4 tcp respLen` — one query: `served w`, `stuck path` or `panic …`.
+-/
 namespace Agd.Driver.C20
-def main : IO Unit := Agd.Driver.loop (fun (s : Unit) _ => (s, "bad-op")) ()
+open Agd.Config Agd.Driver
+
+structure S where
+  c : Config := {}
+  parseOk : Bool := true
+
+/-- Result of applying one token. -/
+inductive Upd | ok (c : Config) | range | unknown
+
+def num (ty : Ty) (v : String) (set : Int → Config) : Upd :=
+  let n : Int := if v == "-" then 0 else int! v
+  if ty.inRange n then .ok (set n) else .range
+
+def flag (v : String) (set : Bool → Config) : Upd := .ok (set (v != "-" && bool! v))
+def str (v : String) (set : String → Config) : Upd := .ok (set (if v == "-" then "" else v))
+
+def setField (c : Config) (k v : String) : Upd :=
+  match k with
+  | "ratelimit.allowlist.type" => str v fun x => { c with alType := x }
+  | "ratelimit.allowlist.refresh_interval" => num .dur v fun x => { c with alRefresh := x }
+  | "ratelimit.connection_limit.enabled" => flag v fun x => { c with clEnabled := x }
+  | "ratelimit.connection_limit.stop" => num .uint v fun x => { c with clStop := x }
+  | "ratelimit.connection_limit.resume" => num .uint v fun x => { c with clResume := x }
+  | "ratelimit.ipv4.count" => num .uint v fun x => { c with v4Count := x }
+  | "ratelimit.ipv4.interval" => num .dur v fun x => { c with v4Ivl := x }
+  | "ratelimit.ipv4.subnet_key_len" => num .int v fun x => { c with v4Len := x }
+  | "ratelimit.ipv6.count" => num .uint v fun x => { c with v6Count := x }
+  | "ratelimit.ipv6.interval" => num .dur v fun x => { c with v6Ivl := x }
+  | "ratelimit.ipv6.subnet_key_len" => num .int v fun x => { c with v6Len := x }
+  | "ratelimit.quic.enabled" => flag v fun x => { c with quicEnabled := x }
+  | "ratelimit.quic.max_streams_per_peer" => num .int v fun x => { c with quicMax := x }
+  | "ratelimit.tcp.enabled" => flag v fun x => { c with tcpEnabled := x }
+  | "ratelimit.tcp.max_pipeline_count" => num .uint v fun x => { c with tcpMax := x }
+  | "ratelimit.backoff_count" => num .uint v fun x => { c with bkCount := x }
+  | "ratelimit.backoff_duration" => num .dur v fun x => { c with bkDur := x }
+  | "ratelimit.backoff_period" => num .dur v fun x => { c with bkPeriod := x }
+  | "ratelimit.response_size_estimate" => num .size v fun x => { c with est := x }
+  | "upstream.servers.0.timeout" => num .dur v fun x => { c with upS0 := x }
+  | "upstream.servers.1.timeout" => num .dur v fun x => { c with upS1 := x }
+  | "upstream.fallback.servers.0.timeout" => num .dur v fun x => { c with upF0 := x }
+  | "upstream.fallback.servers.1.timeout" => num .dur v fun x => { c with upF1 := x }
+  | "upstream.healthcheck.enabled" => flag v fun x => { c with hcEnabled := x }
+  | "upstream.healthcheck.interval" => num .dur v fun x => { c with hcIvl := x }
+  | "upstream.healthcheck.timeout" => num .dur v fun x => { c with hcTimeout := x }
+  | "upstream.healthcheck.backoff_duration" => num .dur v fun x => { c with hcBackoff := x }
+  | "cache.type" => str v fun x => { c with caType := x }
+  | "cache.size" => num .int v fun x => { c with caSize := x }
+  | "cache.ecs_size" => num .int v fun x => { c with caEcs := x }
+  | "cache.ttl_override.enabled" => flag v fun x => { c with ttlEnabled := x }
+  | "cache.ttl_override.min" => num .dur v fun x => { c with ttlMin := x }
+  | "dnsdb.enabled" => flag v fun x => { c with dbEnabled := x }
+  | "dnsdb.max_size" => num .int v fun x => { c with dbMax := x }
+  | "dns.read_timeout" => num .dur v fun x => { c with dnsRead := x }
+  | "dns.tcp_idle_timeout" => num .dur v fun x => { c with dnsIdle := x }
+  | "dns.write_timeout" => num .dur v fun x => { c with dnsWrite := x }
+  | "dns.handle_timeout" => num .dur v fun x => { c with dnsHandle := x }
+  | "dns.max_udp_response_size" => num .size v fun x => { c with dnsUdp := x }
+  | "backend.timeout" => num .dur v fun x => { c with beTimeout := x }
+  | "backend.refresh_interval" => num .dur v fun x => { c with beRefresh := x }
+  | "backend.full_refresh_interval" => num .dur v fun x => { c with beFull := x }
+  | "backend.full_refresh_retry_interval" => num .dur v fun x => { c with beRetry := x }
+  | "backend.bill_stat_interval" => num .dur v fun x => { c with beBill := x }
+  | "geoip.host_cache_size" => num .int v fun x => { c with geoHost := x }
+  | "geoip.ip_cache_size" => num .int v fun x => { c with geoIp := x }
+  | "geoip.refresh_interval" => num .dur v fun x => { c with geoRefresh := x }
+  | "check.kv.type" => str v fun x => { c with kvType := x }
+  | "check.kv.ttl" => num .dur v fun x => { c with kvTtl := x }
+  | "web.timeout" => num .dur v fun x => { c with webTimeout := x }
+  | "safe_browsing.cache_size" => num .int v fun x => { c with sbSize := x }
+  | "safe_browsing.cache_ttl" => num .dur v fun x => { c with sbTtl := x }
+  | "safe_browsing.refresh_interval" => num .dur v fun x => { c with sbRefresh := x }
+  | "safe_browsing.refresh_timeout" => num .dur v fun x => { c with sbTimeout := x }
+  | "adult_blocking.cache_size" => num .int v fun x => { c with abSize := x }
+  | "adult_blocking.cache_ttl" => num .dur v fun x => { c with abTtl := x }
+  | "adult_blocking.refresh_interval" => num .dur v fun x => { c with abRefresh := x }
+  | "adult_blocking.refresh_timeout" => num .dur v fun x => { c with abTimeout := x }
+  | "filters.custom_filter_cache_size" => num .int v fun x => { c with flCustom := x }
+  | "filters.safe_search_cache_size" => num .int v fun x => { c with flSafe := x }
+  | "filters.response_ttl" => num .dur v fun x => { c with flRespTtl := x }
+  | "filters.refresh_interval" => num .dur v fun x => { c with flRefresh := x }
+  | "filters.refresh_timeout" => num .dur v fun x => { c with flRefreshTo := x }
+  | "filters.index_refresh_timeout" => num .dur v fun x => { c with flIndexTo := x }
+  | "filters.rule_list_refresh_timeout" => num .dur v fun x => { c with flRuleTo := x }
+  | "filters.max_size" => num .size v fun x => { c with flMax := x }
+  | "filters.ede_enabled" => flag v fun x => { c with flEde := x }
+  | "filters.sde_enabled" => flag v fun x => { c with flSde := x }
+  | "filters.rule_list_cache.enabled" => flag v fun x => { c with rlcEnabled := x }
+  | "filters.rule_list_cache.size" => num .int v fun x => { c with rlcSize := x }
+  | "interface_listeners.channel_buffer_size" => num .int v fun x => { c with ilBuf := x }
+  | "network.so_sndbuf" => num .size v fun x => { c with nwSnd := x }
+  | "network.so_rcvbuf" => num .size v fun x => { c with nwRcv := x }
+  | _ => .unknown
+
+def dropSection (c : Config) (k : String) : Option Config :=
+  match k with
+  | "ratelimit" => some { c with pRl := false }
+  | "ratelimit.allowlist" => some { c with pAl := false }
+  | "ratelimit.connection_limit" => some { c with pCl := false }
+  | "ratelimit.ipv4" => some { c with pV4 := false }
+  | "ratelimit.ipv6" => some { c with pV6 := false }
+  | "ratelimit.quic" => some { c with pQuic := false }
+  | "ratelimit.tcp" => some { c with pTcp := false }
+  | "upstream" => some { c with pUp := false }
+  | "upstream.fallback" => some { c with pFb := false }
+  | "upstream.healthcheck" => some { c with pHc := false }
+  | "cache" => some { c with pCa := false }
+  | "cache.ttl_override" => some { c with pTtl := false }
+  | "dnsdb" => some { c with pDb := false }
+  | "dns" => some { c with pDns := false }
+  | "backend" => some { c with pBe := false }
+  | "geoip" => some { c with pGeo := false }
+  | "check" => some { c with pCk := false }
+  | "check.kv" => some { c with pKv := false }
+  | "web" => some { c with pWeb := false }
+  | "safe_browsing" => some { c with pSb := false }
+  | "adult_blocking" => some { c with pAb := false }
+  | "filters" => some { c with pFl := false }
+  | "filters.rule_list_cache" => some { c with pRlc := false }
+  | "interface_listeners" => some { c with pIl := false }
+  | "network" => some { c with pNw := false }
+  | _ => none
+
+/-- Apply the tokens of a `cfg` line; `none` = malformed line. -/
+def apply : S → List String → Option S
+  | s, [] => some s
+  | s, t :: r =>
+    if t.startsWith "-" then
+      match dropSection s.c (t.drop 1).toString with
+      | some c => apply { s with c := c } r
+      | none => none
+    else
+      match t.splitOn "=" with
+      | [k, v] =>
+        match setField s.c k v with
+        | .ok c => apply { s with c := c } r
+        | .range => apply { s with parseOk := false } r
+        | .unknown => none
+      | _ => none
+
+def showErrs (es : List Err) : String :=
+  ";".intercalate (es.map fun e => e.1.name ++ ":" ++ e.2.name)
+
+def showPanic : Panic → String
+  | .lruSize f => "panic lru " ++ f.name
+  | .connLimiter => "panic connlimiter"
+  | .idleTimeout => "panic idle-timeout"
+  | .chanSize => "panic chan-size"
+  | .divZero => "panic div-zero"
+  | .badPrefix => "panic bad-prefix"
+  | .makeslice => "panic makeslice"
+  | .makechan => "panic makechan"
+
+def showCache : CacheType → String
+  | .none => "none" | .simple => "simple" | .ecs => "ecs"
+
+def step (s : S) : List String → S × String
+  | "cfg" :: toks =>
+    match apply {} toks with
+    | none => (s, "bad-op")
+    | some s' =>
+      if !s'.parseOk then (s', "parse")
+      else match validate false s'.c with
+        | [] => (s', "ok")
+        | es => (s', "err " ++ showErrs es)
+  | ["conv"] =>
+    let c := s.c
+    (s, s!"cache={showCache (cacheType c)} noecs={c.caSize} ecs={c.caEcs} minttl={c.ttlMin} " ++
+        s!"override={showB c.ttlEnabled} connlim={showB c.clEnabled} " ++
+        s!"hcinit={if c.hcEnabled then c.hcTimeout else 0} " ++
+        s!"bk={c.bkCount},{c.bkPeriod},{c.bkDur},{c.est} v4={c.v4Count},{c.v4Ivl},{c.v4Len} " ++
+        s!"v6={c.v6Count},{c.v6Ivl},{c.v6Len} tcp={showB c.tcpEnabled},{c.tcpMax} " ++
+        s!"quic={showB c.quicEnabled},{c.quicMax} dns={c.dnsRead},{c.dnsWrite},{c.dnsIdle},{c.dnsUdp}")
+  | ["build"] =>
+    match build s.c with
+    | .ok _ => (s, "ok")
+    | .error p => (s, showPanic p)
+  | ["handle", is4, tcp, len] =>
+    match handle s.c { is4 := bool! is4, tcp := bool! tcp, respLen := nat! len } with
+    | .ok (.served w) => (s, s!"served {w}")
+    | .ok (.stuck f) => (s, "stuck " ++ f.name)
+    | .error p => (s, showPanic p)
+  | _ => (s, "bad-op")
+
+def main : IO Unit := loop step {}
+
 end Agd.Driver.C20
